@@ -4,7 +4,7 @@ Model of conditional and range responses (property C11):
 parse_if_range_header, parse_range_header, is_byte_range_valid}`, `datastructures.range.Range`
 (`range_for_length`, `to_content_range_header`), `wrappers.response.Response`
 (`_is_range_request_processable`, `_process_range_request`, `make_conditional`, the body choice of
-`get_app_iter`) and `wsgi._RangeWrapper`, all as repaired by f11af11 / 3e1f661 / 64fcb6a / 84dd3fe / a63ec67.
+`get_app_iter`) and `wsgi._RangeWrapper`, all as repaired by f11af11 / 3e1f661 / 64fcb6a / 84dd3fe / a63ec67 / 9be10e4.
 
 `parse_date`: the decision functions take parsed instants (any origin; the harness supplies epoch
 seconds for arbitrary date notations); for IMF-fixdate text (`http_date` output) the text-level
@@ -202,7 +202,7 @@ def isResourceModified (r : CondReq) (etag : Option Str) (lastModified : Option 
       | none => u0                           -- `if etag:` is false for the empty string
       | some (e, _) =>
         match ifr with
-        | some (.etag ie) => (parseEtags (some ie)).contains e
+        | some (.etag ie) => ie == e          -- `if_range.etag == etag` (9be10e4, repaired F11g)
         | _ =>
           let inm := parseEtags r.inm
           let u1 := if inm.truthy then inm.containsWeak e else u0
